@@ -250,6 +250,7 @@ class Type4Tag(nfc.tag.Tag):
                 log.warning("insufficient capability data")
                 return False
 
+            capabilities = capabilities[:15]  # a card may send more
             capabilities += (15-len(capabilities)) * b"\0"  # for unpack
             ver, mle, mlc, tag, val = unpack(">BHHB9p", capabilities)
             log.debug("ndef mapping version %d.%d", ver >> 4, ver & 15)
@@ -267,6 +268,9 @@ class Type4Tag(nfc.tag.Tag):
 
             ndef_control_tlv_format = ">2sHBB" if tag == 4 else ">2sIBB"
             ndef_file, mfs, rf, wf = unpack(ndef_control_tlv_format, val)
+            if mfs < tag - 2:
+                log.error("ndef file size too small for the length field")
+                return False
             log.debug("ndef file identifier %s", hexlify(ndef_file).decode())
             log.debug("ndef file size limit %d", mfs)
             log.debug("ndef file read flag is %d", rf)
